@@ -20,6 +20,7 @@ type stratSpec struct {
 var stratSpecs = []stratSpec{
 	{name: "Macd", cfgs: [][3]int{{1, 2, 2}, {2, 3, 2}, {1, 2, 3}}},
 	{name: "Rsi", cfgs: [][3]int{{2, 0, 0}, {3, 0, 0}}, nonlin: true},
+	{name: "RsiT", cfgs: [][3]int{{2, 0, 0}}, nonlin: true}, // thresholds 60 / 80 (both above the neutral 50)
 	{name: "AwesomeOscillator", cfgs: [][3]int{{1, 2, 0}, {2, 3, 0}}},
 	{name: "StochasticRsi", cfgs: [][3]int{{2, 2, 0}, {3, 2, 0}}, heavy: true, nonlin: true, noDflt: true},
 	{name: "TripleRsi", cfgs: [][3]int{{2, 3, 2}, {2, 4, 3}}, nonlin: true, noDflt: true},
@@ -97,7 +98,7 @@ func init() {
 			}
 			var out []sym.CaseSpec
 			for _, s := range stratSpecs {
-				for _, cfg := range s.cfgs {
+				for ci, cfg := range s.cfgs {
 					w, ok := pr.warm(s.name, cfg, 0)
 					if !ok {
 						continue
@@ -114,6 +115,14 @@ func init() {
 						c := css("H_C05", s, cfg, 0, w+2)
 						c.ZeroDen = 1
 						out = append(out, c)
+					}
+					if ci == 0 && !s.noRule {
+						// the same strategy configured field by field on a default-constructed value
+						sf := s
+						sf.name += "F"
+						for _, n := range []int{w, w + 1, w + 2} {
+							out = append(out, css("H_C05", sf, cfg, 0, n))
+						}
 					}
 				}
 				if s.noDflt && tier != "thorough" || s.heavy {
@@ -204,6 +213,11 @@ func init() {
 							c = css("H_C14_Value", s, cfg, 3, 0)
 							c.ZeroDen = 1
 							out = append(out, c)
+						}
+						if !s.noRule {
+							sf := s
+							sf.name += "F" // configured field by field on a default-constructed value
+							out = append(out, css("H_C14", sf, cfg, 2))
 						}
 						c = css("H_C14_Value", s, cfg, 2, 1) // zero prices (missing quotes)
 						c.ZeroDen = 1
